@@ -6,7 +6,10 @@ import CollectionsC.Spec.SeqSpec
 the buffer block, and `exp_factor` in the form of the function `grow c = (size_t)(c * exp_factor)`),
 the same statements in the same order.  `size_t` is `Nat`; the places where the C text relies on
 unsigned wrap-around (`size - 1` on an empty array, `index - 1` at 0) use `wdec`.
-The allocators of the struct are not modelled as fields: every allocation goes through `Mem`.
+The allocator triple of the struct (`mem_alloc/mem_calloc/mem_free`, copied from the configuration) is
+the field `triple`; every allocation and release of the model goes through `Mem.allocT`/`Mem.freeT`
+with the triple of the array that performs it, derived arrays copy it where the C code copies the
+three function pointers.
 Byte-size products (`capacity * sizeof(void*)`) never wrap: the constructor (A9) and
 `expand_capacity` (A10) refuse every capacity above `CC_MAX_ELEMENTS / 8`, which is part of `Inv`. A loop that reads the slots `[0,size)` is preceded by one check
 `size ≤ buf.length` instead of one check per slot. -/
@@ -18,6 +21,7 @@ structure Arr where
   capacity : Nat
   buf      : Buf Nat
   grow     : Nat → Nat
+  triple   : Triple := .conf
 
 /-- `CC_ArrayIter` (the array pointer is kept by the caller) -/
 structure ArrIter where
@@ -41,19 +45,19 @@ def Inv (a : Arr) : Prop :=
 instance (a : Arr) : Decidable a.Inv := by unfold Inv; infer_instance
 
 /-- `cc_array_new_conf`; `exGe q` is the float test `ex >= (float) q` -/
-def new (cap : Nat) (grow : Nat → Nat) (exGe : Nat → Bool) (m : Mem) : Stat × Option Arr × Mem :=
+def new (cap : Nat) (grow : Nat → Nat) (exGe : Nat → Bool) (m : Mem) (t : Triple := .conf) : Stat × Option Arr × Mem :=
   if cap = 0 then (.errInvalidCapacity, none, m) else
   if exGe (Gen.CC_MAX_ELEMENTS / cap) then (.errInvalidCapacity, none, m) else
   -- `conf->capacity > CC_MAX_ELEMENTS / sizeof(void*)`: the byte size must not wrap (A9)
   if cap > Gen.CC_MAX_ELEMENTS / 8 then (.errInvalidCapacity, none, m) else
-  let a1 := m.alloc
+  let a1 := m.allocT t
   if !a1.1 then (.errAlloc, none, a1.2) else
-  let a2 := a1.2.alloc
-  if !a2.1 then (.errAlloc, none, a2.2.free) else
-  (.ok, some { size := 0, capacity := cap, buf := Buf.mk cap, grow := grow }, a2.2)
+  let a2 := a1.2.allocT t
+  if !a2.1 then (.errAlloc, none, a2.2.freeT t) else
+  (.ok, some { size := 0, capacity := cap, buf := Buf.mk cap, grow := grow, triple := t }, a2.2)
 
 /-- `cc_array_destroy` -/
-def destroy (_a : Arr) (m : Mem) : Mem := m.free.free
+def destroy (a : Arr) (m : Mem) : Mem := (m.freeT a.triple).freeT a.triple
 
 /-- `cc_array_destroy_cb`: the elements handed to the callback, then `destroy` -/
 def destroyCb (a : Arr) (m : Mem) : List Nat × Mem :=
@@ -72,11 +76,11 @@ def expandCapacity (a : Arr) (m : Mem) : Stat × Arr × Mem :=
   let nc := a.newCapacity
   -- `new_capacity > CC_MAX_ELEMENTS / sizeof(void*)`: the byte size must not wrap (A10)
   if nc > Gen.CC_MAX_ELEMENTS / 8 then (.errMaxCapacity, a, m) else
-  let al := m.alloc
+  let al := m.allocT a.triple
   if !al.1 then (.errAlloc, a, al.2) else
   let m := al.2.check (a.size ≤ a.buf.length && a.size ≤ nc)
   let nb := (Buf.mk nc : Buf Nat).memcpy 0 a.buf 0 a.size
-  let m := m.free
+  let m := m.freeT a.triple
   (.ok, { a with buf := nb, capacity := nc }, m)
 
 /-- `ar->buffer[ar->size] = element; ar->size++` -/
@@ -141,12 +145,16 @@ def closeGap (a : Arr) (index : Nat) : Arr :=
 def remove (a : Arr) (x : Nat) (m : Mem) : Stat × Option Nat × Arr × Mem :=
   let r := a.indexOf x m
   if r.1 = .errOutOfRange then (.errValueNotFound, none, a, r.2.2) else
-  (.ok, some x, a.closeGap (r.2.1.getD 0), r.2.2)
+  let index := r.2.1.getD 0
+  -- the memmove reads the slots `[index+1, index+1+(size-1-index))`
+  let m := r.2.2.check (index + 1 + (a.size - 1 - index) ≤ a.buf.length)
+  (.ok, some x, a.closeGap index, m)
 
 /-- `cc_array_remove_at` -/
 def removeAt (a : Arr) (i : Nat) (m : Mem) : Stat × Option Nat × Arr × Mem :=
   if i ≥ a.size then (.errOutOfRange, none, a, m) else
-  let m := m.check (a.size ≤ a.buf.length)
+  -- `*out = buffer[index]`, then the memmove reads the slots `[index+1, index+1+(size-1-index))`
+  let m := m.check (i < a.buf.length && i + 1 + (a.size - 1 - i) ≤ a.buf.length)
   (.ok, some (a.buf.get i), a.closeGap i, m)
 
 /-- `cc_array_remove_last`: `remove_at(ar, ar->size - 1, out)` with the unsigned wrap on empty -/
@@ -168,35 +176,35 @@ def getLast (a : Arr) (m : Mem) : Stat × Option Nat × Mem :=
   if a.size = 0 then (.errValueNotFound, none, m) else a.getAt (a.size - 1) m
 
 /-- block + header of a derived array: `mem_alloc`/`mem_calloc` in the C order, cleanup on refusal -/
-def alloc2 (m : Mem) : Bool × Mem :=
-  let a1 := m.alloc
+def alloc2 (m : Mem) (t : Triple := .conf) : Bool × Mem :=
+  let a1 := m.allocT t
   if !a1.1 then (false, a1.2) else
-  let a2 := a1.2.alloc
-  if !a2.1 then (false, a2.2.free) else (true, a2.2)
+  let a2 := a1.2.allocT t
+  if !a2.1 then (false, a2.2.freeT t) else (true, a2.2)
 
 /-- `cc_array_subarray`: the new block has `ar->capacity` slots, the new capacity is the size -/
 def subarray (a : Arr) (b e : Nat) (m : Mem) : Stat × Option Arr × Mem :=
   if b > e || e ≥ a.size then (.errInvalidRange, none, m) else
-  let al := alloc2 m
+  let al := alloc2 m a.triple
   if !al.1 then (.errAlloc, none, al.2) else
   let sz := e - b + 1
   let m := al.2.check (b + sz ≤ a.buf.length && sz ≤ a.capacity)
-  (.ok, some { size := sz, capacity := sz, buf := (Buf.mk a.capacity : Buf Nat).memcpy 0 a.buf b sz, grow := a.grow }, m)
+  (.ok, some { size := sz, capacity := sz, buf := (Buf.mk a.capacity : Buf Nat).memcpy 0 a.buf b sz, grow := a.grow, triple := a.triple }, m)
 
 /-- `cc_array_copy_shallow` -/
 def copyShallow (a : Arr) (m : Mem) : Stat × Option Arr × Mem :=
-  let al := alloc2 m
+  let al := alloc2 m a.triple
   if !al.1 then (.errAlloc, none, al.2) else
   let m := al.2.check (a.size ≤ a.buf.length && a.size ≤ a.capacity)
-  (.ok, some { size := a.size, capacity := a.capacity, buf := (Buf.mk a.capacity : Buf Nat).memcpy 0 a.buf 0 a.size, grow := a.grow }, m)
+  (.ok, some { size := a.size, capacity := a.capacity, buf := (Buf.mk a.capacity : Buf Nat).memcpy 0 a.buf 0 a.size, grow := a.grow, triple := a.triple }, m)
 
 /-- `cc_array_copy_deep`; also returns the elements handed to `cp`, in call order -/
 def copyDeep (cp : Nat → Nat) (a : Arr) (m : Mem) : Stat × Option Arr × List Nat × Mem :=
-  let al := alloc2 m
+  let al := alloc2 m a.triple
   if !al.1 then (.errAlloc, none, [], al.2) else
   let m := al.2.check (a.size ≤ a.buf.length && a.size ≤ a.capacity)
   let buf : Buf Nat := (List.range a.capacity).map fun j => if j < a.size then cp (a.buf.get j) else 0
-  (.ok, some { size := a.size, capacity := a.capacity, buf := buf, grow := a.grow },
+  (.ok, some { size := a.size, capacity := a.capacity, buf := buf, grow := a.grow, triple := a.triple },
    (List.range a.size).map a.buf.get, m)
 
 /-- state of the compaction loop of `cc_array_filter_mut` -/
@@ -206,29 +214,32 @@ structure FM where
   rm   : Nat
   keep : Nat
   log  : List Nat      -- elements handed to the predicate so far
+  ok   : Bool := true  -- every slot read and every memmove so far stayed inside the block
 
 /-- the loop `for (i = size - 1; i != (size_t)-1; i--)`: `n = i + 1` iterations remain -/
 def filterMutLoop (p : Nat → Bool) : Nat → FM → FM
   | 0, s => s
   | i + 1, s =>
     let e := s.buf.get i
-    let s := { s with log := s.log ++ [e] }
+    let s := { s with log := s.log ++ [e], ok := s.ok && decide (i < s.buf.length) }
     if !p e then filterMutLoop p i { s with rm := s.rm + 1 }
     else
       let s :=
         if s.rm > 0 then
           let buf := if s.keep > 0 then s.buf.memmove (i + 1) (i + 1 + s.rm) s.keep else s.buf
-          { s with buf := buf, size := s.size - s.rm, rm := 0 }
+          let ok := if s.keep > 0 then s.ok && decide (i + 1 + s.rm + s.keep ≤ s.buf.length) else s.ok
+          { s with buf := buf, size := s.size - s.rm, rm := 0, ok := ok }
         else s
       filterMutLoop p i { s with keep := s.keep + 1 }
 
 /-- `cc_array_filter_mut`; also returns the elements handed to the predicate, in call order -/
 def filterMut (p : Nat → Bool) (a : Arr) (m : Mem) : Stat × Arr × List Nat × Mem :=
   if a.size = 0 then (.errOutOfRange, a, [], m) else
-  let m := m.check (a.size ≤ a.buf.length)
   let s := filterMutLoop p a.size { buf := a.buf, size := a.size, rm := 0, keep := 0, log := [] }
-  let s := if s.rm > 0 then { s with buf := s.buf.memmove 0 s.rm s.keep, size := s.size - s.rm } else s
-  (.ok, { a with buf := s.buf, size := s.size }, s.log, m)
+  let s := if s.rm > 0 then { s with buf := s.buf.memmove 0 s.rm s.keep, size := s.size - s.rm,
+                                       ok := s.ok && decide (s.rm + s.keep ≤ s.buf.length) } else s
+  -- one fault check for all slot reads and memmoves of the loop (each was tested where it happened)
+  (.ok, { a with buf := s.buf, size := s.size }, s.log, m.check s.ok)
 
 /-- the copying loop of `cc_array_filter`: destination buffer and write position `f` -/
 def filterStep (p : Nat → Bool) (src : Buf Nat) (s : Buf Nat × Nat) (i : Nat) : Buf Nat × Nat :=
@@ -237,11 +248,11 @@ def filterStep (p : Nat → Bool) (src : Buf Nat) (s : Buf Nat × Nat) (i : Nat)
 /-- `cc_array_filter`; also returns the elements handed to the predicate -/
 def filter (p : Nat → Bool) (a : Arr) (m : Mem) : Stat × Option Arr × List Nat × Mem :=
   if a.size = 0 then (.errOutOfRange, none, [], m) else
-  let al := alloc2 m
+  let al := alloc2 m a.triple
   if !al.1 then (.errAlloc, none, [], al.2) else
   let m := al.2.check (a.size ≤ a.buf.length && a.size ≤ a.capacity)
   let s := (List.range a.size).foldl (filterStep p a.buf) ((Buf.mk a.capacity : Buf Nat), 0)
-  (.ok, some { size := s.2, capacity := a.capacity, buf := s.1, grow := a.grow },
+  (.ok, some { size := s.2, capacity := a.capacity, buf := s.1, grow := a.grow, triple := a.triple },
    (List.range a.size).map a.buf.get, m)
 
 /-- one swap of `cc_array_reverse`: `i` and `j = size - 1 - i` -/
@@ -260,11 +271,11 @@ def trimCapacity (a : Arr) (m : Mem) : Stat × Arr × Mem :=
   if a.size = a.capacity then (.ok, a, m) else
   let size := if a.size < 1 then 1 else a.size
   if size = a.capacity then (.ok, a, m) else
-  let al := m.alloc
+  let al := m.allocT a.triple
   if !al.1 then (.errAlloc, a, al.2) else
   let m := al.2.check (a.size ≤ a.buf.length && a.size ≤ size)
   let nb := (Buf.mk size : Buf Nat).memcpy 0 a.buf 0 a.size
-  let m := m.free
+  let m := m.freeT a.triple
   (.ok, { a with buf := nb, capacity := size }, m)
 
 /-- `cc_array_contains` -/
